@@ -94,4 +94,122 @@ theorem thriftVlqLoop_spec : ∀ (bs : List Nat) (acc s : Nat), acc < 2 ^ s → 
           omega
         rw [hval (by omega) (by rw [hse]; omega), hse, hexp]; omega
 
+theorem thriftReadVlq_spec (bs : List Nat) :
+    match uleb bs with
+    | none => thriftReadVlq bs = .error .eof
+    | some (v, n) => ∃ w, thriftReadVlq bs = .ok (w, bs.drop n) ∧ w < 2 ^ 64 ∧
+        (n ≤ 10 → v < 2 ^ 64 → w = v) := by
+  cases bs with
+  | nil => simp [uleb, thriftReadVlq]
+  | cons b bs =>
+    simp only [uleb, thriftReadVlq, THRIFT_VLQ_PAYLOAD, THRIFT_VLQ_CONT, THRIFT_VLQ_SHIFT0]
+    by_cases hb : b < 128
+    · simp only [hb, if_true]
+      exact ⟨b, by simp, by omega, fun _ _ => rfl⟩
+    · simp only [hb, if_false]
+      have hp : b % 128 < 128 := Nat.mod_lt _ (by decide)
+      have h := thriftVlqLoop_spec bs (b % 128) 7 (by omega) (by omega)
+      cases hu : uleb bs with
+      | none => simp only [hu] at h ⊢; exact h
+      | some r =>
+        obtain ⟨v', n'⟩ := r
+        simp only [hu] at h ⊢
+        obtain ⟨w, hw, hw64, hval⟩ := h
+        refine ⟨w, by simpa using hw, hw64, ?_⟩
+        intro h1 h2
+        rw [hval (by omega) (by omega)]; omega
+
+theorem shl64_eq_wshl64 (x s : Nat) (h : s < 64) : shl64 x s = wshl64 x s := by
+  unfold shl64 wshl64; rw [Nat.mod_eq_of_lt h]
+
+theorem avroSlowGo_ten (value : Nat) (bs : List Nat) : avroSlowGo 10 value bs = none := by
+  cases bs <;> simp [avroSlowGo, AVRO_SLOW_MAX]
+
+theorem pow7c (c : Nat) : 2 ^ ((c + 1) * 7) = 128 * 2 ^ (c * 7) := by
+  rw [Nat.add_mul, Nat.one_mul]; exact pow7 _
+
+theorem avroSlowGo_spec : ∀ (bs : List Nat) (count value : Nat), count ≤ 10 → value < 2 ^ (count * 7) →
+    avroSlowGo count value bs =
+      match uleb bs with
+      | none => none
+      | some (v, n) =>
+        if count + n ≤ 10 ∧ value + v * 2 ^ (count * 7) < 2 ^ 64 then some (value + v * 2 ^ (count * 7), count + n)
+        else none := by
+  intro bs
+  induction bs with
+  | nil => intro c v _ _; simp [uleb, avroSlowGo]
+  | cons b bs ih =>
+    intro c value hc hv
+    by_cases hc10 : c = 10
+    · subst hc10
+      rw [avroSlowGo_ten]
+      cases hu : uleb (b :: bs) with
+      | none => rfl
+      | some r =>
+        obtain ⟨v, n⟩ := r
+        have := (uleb_bound _ _ _ hu).2.1
+        simp; omega
+    have hc9 : c ≤ 9 := by omega
+    have hs : c * 7 ≤ 63 := by omega
+    have hv64 : value < 2 ^ 64 := Nat.lt_of_lt_of_le hv (Nat.pow_le_pow_right (by decide) (by omega))
+    have hp : b % 128 < 128 := Nat.mod_lt _ (by decide)
+    simp only [uleb, avroSlowGo, AVRO_SLOW_MAX, AVRO_SLOW_LAST_IDX, AVRO_SLOW_LAST_LIMIT]
+    have h10 : ¬ c ≥ 10 := by omega
+    simp only [h10, if_false]
+    rw [shl64_eq_wshl64 _ _ (show c * 7 < 64 by omega)]
+    by_cases hb : b < 128
+    · have hb' : b ≤ 127 := by omega
+      simp only [hb, hb', if_true]
+      rw [Nat.mod_eq_of_lt hb]
+      by_cases hc9' : c = 9
+      · subst hc9'
+        by_cases hb2 : b < 2
+        · have hb01 : b = 0 ∨ b = 1 := by omega
+          have : value + b * 2 ^ (9 * 7) < 2 ^ 64 := by rcases hb01 with rfl | rfl <;> omega
+          rw [step_eq _ _ _ hv hs (by omega)]
+          simp [hb2, this]
+        · have : ¬ (value + b * 2 ^ (9 * 7) < 2 ^ 64) := by
+            have : 2 * 2 ^ (9 * 7) ≤ b * 2 ^ (9 * 7) := Nat.mul_le_mul_right _ (by omega)
+            omega
+          simp [hb2, this]
+      · have hlt : value + b * 2 ^ (c * 7) < 2 ^ 64 := by
+          have h1 : b * 2 ^ (c * 7) ≤ 127 * 2 ^ (c * 7) := Nat.mul_le_mul_right _ (by omega)
+          have h2 : 2 ^ ((c + 1) * 7) ≤ 2 ^ 63 := Nat.pow_le_pow_right (by decide) (by omega)
+          have := pow7c c
+          omega
+        rw [step_eq _ _ _ hv hs (by omega)]
+        simp [hc9', hlt]; omega
+    · have hb' : ¬ b ≤ 127 := by omega
+      simp only [hb, hb', if_false]
+      by_cases hc9' : c = 9
+      · subst hc9'
+        rw [avroSlowGo_ten]
+        cases hu : uleb bs with
+        | none => rfl
+        | some r =>
+          obtain ⟨v, n⟩ := r
+          have := (uleb_bound _ _ _ hu).2.1
+          simp; omega
+      · have hc8 : c ≤ 8 := by omega
+        have hfit : b % 128 * 2 ^ (c * 7) < 2 ^ 64 := by
+          have h1 : b % 128 * 2 ^ (c * 7) ≤ 127 * 2 ^ (c * 7) := Nat.mul_le_mul_right _ (by omega)
+          have h2 : 2 ^ ((c + 1) * 7) ≤ 2 ^ 63 := Nat.pow_le_pow_right (by decide) (by omega)
+          have := pow7c c
+          omega
+        have hse := step_eq value (b % 128) (c * 7) hv hs hfit
+        have hlt := (step_lt value (b % 128) (c * 7) hv hv64 hp).1
+        rw [hse] at hlt ⊢
+        have e7 : 2 ^ ((c + 1) * 7) = 2 ^ (c * 7 + 7) := by congr 1; omega
+        rw [ih (c + 1) _ (by omega) (by rw [e7]; exact hlt)]
+        cases hu : uleb bs with
+        | none => rfl
+        | some r =>
+          obtain ⟨v', n'⟩ := r
+          simp only []
+          have hexp : (b % 128 + 128 * v') * 2 ^ (c * 7) = b % 128 * 2 ^ (c * 7) + v' * 2 ^ ((c + 1) * 7) := by
+            rw [pow7c, Nat.add_mul]; congr 1; rw [Nat.mul_comm 128 v', Nat.mul_assoc]
+          rw [hexp]
+          have e1 : c + 1 + n' = c + (n' + 1) := by omega
+          rw [e1, Nat.add_assoc]
+
 end ArrowModel.C08
